@@ -4,6 +4,11 @@ from typing import Any, Dict, List
 
 from icv.harness import Runtime, ErrInst
 
+import os as _os
+
+# the configuration check (C15) renders every contract with an explicit enabled=True and replays under -O / -OO
+FORCE_ENABLED = bool(_os.environ.get("ICV_FORCE_ENABLED"))
+
 SELF_KINDS = ("method", "setter", "init", "getter", "deleter", "protected", "private", "dunder", "repr", "setattr")
 
 
@@ -86,6 +91,8 @@ def _decorator(prog: dict, c: int, role: str, owner: int, params: List[str], che
         args.append("error=errf_{}".format(c))
     if con.get("enabled", True) is not True:
         args.append("enabled={}".format(con["enabled"]))
+    elif FORCE_ENABLED:
+        args.append("enabled=True")
     dec = {"pre": "require", "post": "ensure", "inv": "invariant"}[role]
     if check_on:
         args.append("check_on=icontract.InvariantCheckEvent.{}".format(check_on))
@@ -93,7 +100,7 @@ def _decorator(prog: dict, c: int, role: str, owner: int, params: List[str], che
 
 
 def _snap_decorator(prog: dict, s: int, owner: int, params: List[str]) -> str:
-    return "@icontract.snapshot(cap_{}, name='s{}')".format(s, s)
+    return "@icontract.snapshot(cap_{}, name='s{}'{})".format(s, s, ", enabled=True" if FORCE_ENABLED else "")
 
 
 def _snap_def(prog: dict, s: int, owner: int, params: List[str], indent: str) -> List[str]:
